@@ -161,15 +161,37 @@ def _workloads(task, note):
                 note(ctx, "IndexError: " + str(e)[:150])
             counts["shipped"] += 1
             note(ctx)
+    # (f) tight stacks: arbitrary models re-run with the smallest stack_max_height that completes, under canaries
+    if task.get("canary", True):
+        from framework.props import capacity
+
+        for i in range(task.get("tight", 60)):
+            if time.time() > deadline:
+                break
+            if i % 3 == 0:
+                model = capacity.deep_gadget_model(rnd.randint(1, 5), rnd)
+                cfg = {"calg": rnd.choice(["bc", "shaving"]), "vh": "first", "dh": rnd.choice(["mid", "mid", "min"])}
+            else:
+                model, _ = gen.gen_model(rnd, {"circuit": 0.1, "gcc_zero_cap": False, "widths": [2, 2, 3, 4]})
+                if O.model_points(model) > 3000:
+                    continue
+                cfg = gen.gen_config(rnd, model)
+            ctx = {"tight_stack": {"model": model, "cfg": cfg}}
+            progress.mark(ctx)
+            rec = capacity.tight_stack_case(model, cfg)
+            counts["tight_stack_cases"] = counts.get("tight_stack_cases", 0) + 1
+            if rec["outcome"] in ("canary", "wrong", "error"):
+                note(ctx, "tight stack: " + rec.get("detail", rec["outcome"]))
+            note(ctx)
     # (e) in-capacity searches with canaries around the stacks
     if task.get("canary", True):
         from framework.props import capacity
 
-        for h in (4, 7, 16, 64, 128):
+        for h in ((4, 7, 16) if SAN else (4, 7, 16, 64, 128)):
             for heur in ("min", "max", "split_low", "mid"):
                 for calg in ("bc", "shaving"):
                     for d in (h - 3, h - 2, h - 1, h):
-                        if d < 1 or (heur == "mid" and d % 2):
+                        if d < 1 or (heur == "mid" and d % 2) or time.time() > deadline:
                             continue
                         ctx = {"stack_case": [h, d, heur, calg]}
                         progress.mark(ctx)
